@@ -1,17 +1,21 @@
 """C12 — the output is a deterministic function of the inputs.
 
 (a) model correspondence (model_correspondence): generated projects are run in-process through the whole of
-    ford.main with ford.fortran_project.find_all_files forced to a given order; every NameSelector request is
-    attributed to the loop of the pipeline (the phases of Out/Project.v) and the file it was issued for.  The
-    segments measured under the first order are the model's input; the Coq judge must reproduce the identifier
-    of every entity under every other order (bit0), the runs must agree (bit1, the property), projects whose
-    names compete are the known region 1.
-    graph_emission: the node order of every graph hop against the model's sorted emission.
-(b) the property on real runs (e2e): `python -m ford` in subprocesses, one fixed directory per project,
-    several PYTHONHASHSEED values, parallel in {0, 2, 8}, output directory absent / stale from another project /
-    from the same project; recursive byte comparison; a difference is accepted only when the canonicalisation
-    of an applicable recorded finding (harness/impl/c12run.py apply_canon) removes it.
-(c) findings: the witness of every recorded finding is replayed; KNOWN-FINDING lines come from here only.
+    ford.main.  ford.fortran_project.find_all_files is replaced so that the set of source files is handed over
+    in a chosen order; the real code sorts it (80d6c91), so every such run must parse the files in the order
+    the model computes (isort path_leb: path components, not strings) and all of them must agree (bit1, the
+    property; region 1 = an entity of a set-ordered phase competes for its name).  The same orders are then
+    run with the name `sorted` neutralised inside ford.fortran_project, which drives the pipeline through
+    arbitrary enumerations: the model (Out/Project.v idents_enum over the segments measured on the first run)
+    must reproduce the identifier of every entity in every run (bit0).
+    graph_emission: node order of every graph hop and child-edge order of every InheritedByGraph node against
+    the model's sorted emission.
+(b) the property on real runs (e2e): `python -m ford` in subprocesses, several PYTHONHASHSEED values, parallel
+    in {0, 2, 8}, output directory absent / stale from another project / from the same project, and the same
+    project moved to another directory; recursive byte comparison; a difference is accepted only when the
+    canonicalisation of an applicable OPEN finding (harness/impl/c12run.py apply_canon) removes it.
+(c) findings: the witness of every open finding is replayed (KNOWN-FINDING lines come from here only); the
+    witnesses of the fixed findings are regression inputs: any difference is a VIOLATION.
 """
 import itertools
 import os
@@ -27,10 +31,12 @@ from harness.impl import fordrun as F
 from harness.impl import c12run as R
 
 IMPORTS = "From Ford Require Import Base.Str Base.Order Out.Names Out.Project Corr.C12."
-THEOREMS = ["C12_perm_invariant_noclash", "C12_noclash_order_irrelevant", "C12_refuted_clash_witness",
-            "C12_refuted_clash", "C12_sorted_is_canonical", "C12_sorted_is_canonical_any_order",
-            "C12_sorted_not_enough", "C12_uses_partial", "C12_uses_refuted", "C12_graph_emission_sorted",
-            "C12_child_edges_refuted", "C12_stale_output_irrelevant", "C12_merge_refuted", "C12_nonvacuous"]
+THEOREMS = ["C12_file_order_irrelevant", "C12_sorted_is_canonical_any_order", "C12_location_irrelevant",
+            "C12_former_clash_witness_repaired", "C12_unsorted_refuted", "C12_set_order_irrelevant", "C12_partial",
+            "C12_refuted_witness", "C12_refuted", "C12_noclash_order_irrelevant", "C12_perm_invariant_noclash",
+            "C12_uses_partial", "C12_uses_refuted", "C12_graph_emission_sorted", "C12_child_edges_sorted",
+            "C12_child_edges_unsorted_refuted", "C12_stale_output_irrelevant", "C12_merge_refuted",
+            "C12_nonvacuous"]
 CASE_T = "acase"
 DATE = re.compile(rb" on \d{4}-\d\d-\d\dT[0-9:.+-]+ ")
 
@@ -78,10 +84,12 @@ def build_case(order0, runs):
         files_t.append(f"({coq_list(coq_str(c) for c in rel.split('/'))}, {sparse(segs)})")
     runs_t = []
     for r in runs:
-        pi = [order0.index(x) for x in r["enum"] if x in order0]
+        pi = [order0.index(x) for x in r["forced"] if x in order0]
+        obs = [order0.index(x) for x in r["enum"] if x in order0]
         sets = {k: [ids[e] for e in v] for k, v in r["sets"].items()}
         impl = coq_list(f"({ids[key]}, {coq_str(v)})" for key, v in r["final"].items())
-        runs_t.append(f"({nat_list(pi)}, {sparse(sets)}, {impl})")
+        mode = "false" if r.get("unsorted") else "true"
+        runs_t.append(f"(({mode}, {nat_list(pi)}, {nat_list(obs)}), {sparse(sets)}, {impl})")
     return f"({ents_t}, {coq_list(files_t)}, {coq_list(runs_t)})", problems
 
 
@@ -111,6 +119,9 @@ def model_projects(chk, rng):
     out.append(("witness", {"src/a.f90": "module ma\n  integer :: x\n    !! doc of x in a\nend module ma\n",
                             "src/b.f90": "module mb\n  integer :: x\n    !! doc of x in b\nend module mb\n"},
                 {"clash": True}))
+    # sorted(paths) compares path components, not strings: A.f90 < a/b.f90 < a-b.f90 < a.f90
+    out.append(("paths", {f"src/{p}.f90": f"module m{k}\n  integer :: x\n    !! doc of x\nend module m{k}\n"
+                          for k, p in enumerate(["a-b", "a/b", "a", "A"])}, {"clash": True}))
     for i in range(n):
         files, meta = P.gen(rng, clash=(i % 3 != 2), modclash=(i % 3 == 1), multiuse=rng.random() < 0.5,
                             children=rng.random() < 0.5)
@@ -152,8 +163,9 @@ def model_correspondence(chk, rng):
             continue
         nent = len(runs[0]["final"])
         chk.count(("model", kind, tuple(sorted(files.items()))), nontrivial=len(order0) > 1,
-                  sample={"files": order0, "entities": nent, "orders": [r["enum"] for r in runs][:3],
-                          "options": opts})
+                  sample={"files": order0, "entities": nent, "options": opts,
+                          "runs": [{"handed_over": r["forced"], "sort_neutralised": r["unsorted"],
+                                    "parsed": r["enum"]} for r in runs][:4]})
         chk.extra.setdefault("model_runs", 0)
         chk.extra["model_runs"] += len(runs)
         if problems:
@@ -170,30 +182,30 @@ def model_correspondence(chk, rng):
     nclash = 0
     for idx, (files, opts, runs, meta) in enumerate(info):
         code = res.get(idx, 0)
-        differs = any(r["final"] != runs[0]["final"] for r in runs[1:])
+        region = code >> 2
+        real = [r for r in runs if not r["unsorted"]]
+        differs = any(r["final"] != real[0]["final"] for r in real[1:])
+        spec = [{"forced": r["forced"], "unsorted": r["unsorted"]} for r in runs]
         if code & 2:
             chk.disagreements += 1
             nclash += 1
-        if code & 1:
-            bad = chk.coq_eval(IMPORTS, f"bad_runs {cases[idx]}")
-            chk.violation("failing-input" if (code & 2 and code >> 2 == 0) else "broken-correspondence",
-                          {"what": "identifiers assigned by a traced run differ from the model's",
-                           "code": code, "bad_runs": bad[-300:], "orders": [r["enum"] for r in runs],
-                           "options": opts, "files": files}, bool(code & 2 and code >> 2 == 0))
-        elif code & 2:
-            if code >> 2 == 1:
-                # region 1: names compete; which recorded finding it is (file order or the id-hashed
-                # toposort set) is decided on the witnesses in findings(), here only: is it recorded?
-                if not (chk.known("file-order-anchors", False) or chk.known("toposort-id-order", False)):
-                    chk.violation("failing-input", {"what": "identifiers depend on the enumeration order",
-                                                    "files": files, "options": opts}, True)
-            else:
+            if region == 0 or not chk.known("toposort-id-order", False):
                 chk.violation("failing-input",
-                              {"what": "identifiers of a clash-free project depend on the enumeration order",
-                               "orders": [r["enum"] for r in runs], "files": files, "options": opts}, True)
+                              {"what": "the real code assigns different identifiers when the set of source files "
+                                       "is iterated in another order (or from run to run) although no entity "
+                                       "requested in a set-ordered phase competes for a name",
+                               "runs": spec, "parse_orders": [r["enum"] for r in runs], "options": opts,
+                               "code": code, "files": files}, True)
         elif differs:
             chk.violation("broken-correspondence", {"what": "judge missed a difference", "files": files}, False)
-    chk.extra["model_projects_with_order_dependent_idents"] = nclash
+        if code & 1:
+            bad = chk.coq_eval(IMPORTS, f"bad_runs {cases[idx]}")
+            chk.violation("broken-correspondence",
+                          {"what": "a traced run differs from the model (parse order = sorted order of the paths, "
+                                   "identifier of every entity)", "code": code, "bad_runs": bad[-300:],
+                           "runs": spec, "parse_orders": [r["enum"] for r in runs],
+                           "options": opts, "files": files}, False)
+    chk.extra["model_projects_with_set_order_dependent_idents"] = nclash
 
 
 # ----------------------------------------------------------------------------- graph node emission
@@ -222,18 +234,43 @@ def graph_emission(chk, rng):
         if r and len(given) > 0:
             log.append((self.ident, given, got))
         return r
+    orig_node = fg.InheritedByGraph.add_node
+    elog = []
+
+    def add_node(self, hop_nodes, hop_edges, node, colour):
+        n0 = len(hop_edges)
+        given = [c.ident for c in node.children]
+        r = orig_node(self, hop_nodes, hop_edges, node, colour)
+        tails = [e["edge"]["tail_name"] for e in hop_edges[n0:] if e["edge"]["style"] == "solid"]
+        if len(given) >= 2:
+            elog.append((node.ident, given, tails))
+        return r
     fg.graphviz_installed = False
     fg.FortranGraph.add_to_graph = add_to_graph
+    fg.InheritedByGraph.add_node = add_node
+    ecases, einfo = [], []
     try:
         for i in range(nproj):
             files, meta = P.gen(rng, nfiles=rng.choice([3, 4]), clash=(i % 2 == 0), multiuse=True, children=True)
             with F.Work(files) as w:
                 del log[:]
+                del elog[:]
                 data, out, err = F.full_run_inprocess(w.root, {"graph": "true", "search": "false"})
             if err:
                 chk.notes.append(f"graph emission: FORD failed: {err}")
                 continue
             seen = set()
+            for parent, given, tails in elog:
+                if (parent, tuple(tails)) in seen or not all(map(core.is_ascii, given + tails + [parent])):
+                    continue
+                seen.add((parent, tuple(tails)))
+                shuffled = list(given)
+                rng.shuffle(shuffled)
+                ecases.append(f"({coq_str(parent)}, {coq_list(map(coq_str, shuffled))}, "
+                              f"{coq_list(map(coq_str, tails))})")
+                einfo.append((parent, given, tails))
+                chk.count(("edges", parent, tuple(tails)),
+                          sample={"inherited_by": parent, "children_set_order": given, "edge_tails": tails})
             for ident, given, got in log:
                 if len(given) < 2 or (tuple(given), tuple(got)) in seen or not all(map(core.is_ascii, given + got)):
                     continue
@@ -246,6 +283,17 @@ def graph_emission(chk, rng):
     finally:
         fg.graphviz_installed = orig_flag
         fg.FortranGraph.add_to_graph = orig_add
+        fg.InheritedByGraph.add_node = orig_node
+    eres = chk.coq_judge(IMPORTS, "str * list str * list str", "judge_edges", ecases)
+    if eres is not None:
+        chk.traces += len(ecases)
+        chk.extra["inheritedby_edge_cases"] = len(ecases)
+        for idx, code in sorted(eres.items())[:3]:
+            parent, given, tails = einfo[idx]
+            chk.violation("failing-input" if code & 2 else "broken-correspondence",
+                          {"what": "the child edges of an 'inherited by' graph are not emitted in sorted order",
+                           "type": parent, "children_in_set_order": given, "edge_tails": tails, "code": code},
+                          bool(code & 2))
     res = chk.coq_judge(IMPORTS, "list str * list str", "judge_emit", cases)
     if res is None:
         return
@@ -267,21 +315,13 @@ def mask(tree, opts=None):
 
 
 def applicable(meta, opts, same_seed):
-    """the recorded findings a difference between two runs of this project may be due to"""
+    """the OPEN recorded findings a difference between two runs of this project may be due to; both come from
+    sets of objects hashed by id(), so they apply to any pair of runs (same seed or not)"""
     a = set()
     if meta.get("modclash"):
         a.add("toposort-id-order")
     if meta.get("multiuse"):
         a.add("uses-set-order")
-    if not same_seed:
-        if meta.get("clash") or meta.get("modclash"):
-            a.add("file-order-anchors")
-        if meta.get("nfiles", 2) >= 2 and opts.get("search") == "true":
-            a.add("file-order-search-db")
-        if meta.get("nfiles", 2) >= 2 and opts.get("externalize") == "true":
-            a.add("file-order-modules-json")
-        if meta.get("children") and opts.get("graph") == "true":
-            a.add("inheritedby-children-order")
     return a
 
 
@@ -306,16 +346,21 @@ def e2e_plan(chk, rng):
         runs = [("seed", s, {}, None) for s in seeds]
         runs += [("parallel", s0, {"parallel": str(p)}, None) for p in (0, 2, 8)]
         runs += [("stale-other", s0, {}, "other"), ("stale-same", s0, {}, "same")]
+        runs += [("location", s0, {}, None), ("location", seeds[1], {}, None)]
         plan.append((f"p{i}", files, meta, opts, runs))
     # graphs (dot): few runs, they are slow
     for i in range(1 if quick else 4):
         files, meta = P.gen(rng, nfiles=2 if quick else 3, children=True, multiuse=(i % 2 == 1))
         opts = {"graph": "true", "search": "false"}
         s0 = rng.randrange(1000)
-        runs = [("seed", s0, {}, None), ("seed", s0 + 1, {}, None), ("parallel", s0, {"parallel": "0"}, None),
-                ("parallel", s0, {"parallel": "2"}, None)]
+        runs = [("seed", s0, {}, None), ("seed", s0 + 1, {}, None), ("seed", s0 + 2, {}, None),
+                ("parallel", s0, {"parallel": "0"}, None), ("parallel", s0, {"parallel": "2"}, None),
+                ("location", s0 + 3, {}, None)]
         plan.append((f"g{i}", files, meta, opts, runs))
     return plan
+
+
+MOVED = "zz else where/Deep-er/0"
 
 
 def e2e(chk, rng):
@@ -329,11 +374,13 @@ def e2e(chk, rng):
         res, orders = [], None
         with F.Work() as w:
             pd = R.ProjectDir(w.root, name, files)
+            moved = R.ProjectDir(w.root / MOVED, name, files)     # the same project somewhere else
             for (label, seed, extra, stale) in runs:
                 o = dict(opts)
                 o.update(extra)
                 t = time.time()
-                rc, out, tree, _ = pd.run(o, seed, stale=(other_tree if stale == "other" else stale))
+                where = moved if label == "location" else pd
+                rc, out, tree, _ = where.run(o, seed, stale=(other_tree if stale == "other" else stale))
                 res.append((rc, out, tree, time.time() - t))
             if idx < measure:
                 orders = {s: R.enumeration_order(pd.root, s) for s in sorted({r[1] for r in runs})}
@@ -424,24 +471,34 @@ def differ(files, opts, seeds, kinds, attempts):
 
 
 def findings(chk, rng):
+    """(open) the witness must still differ, and only in the recorded way -> KNOWN-FINDING line;
+    (fixed) the former witnesses are regression inputs: any difference at all is a VIOLATION"""
     quick = chk.tier == "quick"
     checks = [
-        ("file-order-anchors", WIT_ANCHORS, {"search": "false"}, list(range(1, 9)), ["file-order-anchors"]),
-        ("file-order-search-db", WIT_FOUR, {"search": "true"}, list(range(1, 7)), ["file-order-search-db"]),
-        ("file-order-modules-json", WIT_FOUR, {"externalize": "true"}, list(range(1, 7)),
-         ["file-order-modules-json"]),
-        ("uses-set-order", WIT_USES, {}, [3] * 8, ["uses-set-order"]),
-        ("toposort-id-order", WIT_TWINS, {}, [3] * 8, ["toposort-id-order"]),
-        ("inheritedby-children-order", WIT_KIDS, {"graph": "true"}, list(range(1, 6)), ["inheritedby-children-order"]),
+        # key, project, options, seeds, canonicalisations allowed, fixed by
+        ("uses-set-order", WIT_USES, {}, [3] * 8, ["uses-set-order"], None),
+        ("toposort-id-order", WIT_TWINS, {}, [3] * 8, ["toposort-id-order"], None),
+        ("file-order-anchors", WIT_ANCHORS, {"search": "false"}, list(range(1, 9)), [], "80d6c91"),
+        ("file-order-search-db", WIT_FOUR, {"search": "true"}, list(range(1, 7)), [], "80d6c91"),
+        ("file-order-modules-json", WIT_FOUR, {"externalize": "true"}, list(range(1, 7)), [], "80d6c91"),
+        ("inheritedby-children-order", WIT_KIDS, {"graph": "true"}, list(range(1, 6)), [], "c3c7c8e"),
     ]
     with ThreadPoolExecutor(max_workers=8) as ex:
         outcomes = list(ex.map(lambda c: differ(c[1], c[2], c[3], c[4], 6 if quick else 8), checks))
         pool_run = ex.submit(R.subprocess_run, WIT_KIDS,
                              {"graph": "true", "graph_dir": "./graphs", "parallel": "2"}, 1)
         rc, out, tree, _ = pool_run.result()
-    for (key, files, opts, seeds, kinds), (needed, clean, detail) in zip(checks, outcomes):
+    for (key, files, opts, seeds, kinds, fixed_by), (needed, clean, detail) in zip(checks, outcomes):
         fails = key in needed
-        chk.count(("finding", key), sample={"finding": key, "still_differs": fails, "first_difference": detail})
+        chk.count(("finding", key), sample={"finding": key, "fixed_by": fixed_by, "still_differs": fails or not clean,
+                                            "first_difference": detail})
+        if fixed_by:
+            if not clean:
+                chk.violation("failing-input",
+                              {"what": f"regression: the witness of the finding {key} (fixed by {fixed_by}) "
+                                       "gives different output trees again", "seeds": [seeds[0], seeds[-1]],
+                               "options": opts, "first_difference": detail, "files": files}, True)
+            continue
         if not clean:
             chk.violation("failing-input", {"what": f"the witness of finding {key} differs in more than the "
                                                     "recorded way", "first_difference": detail, "files": files}, True)
@@ -492,16 +549,18 @@ def replay(chk, rep):
         print("nothing to replay:", rep.get("what") or rep.get("broken"))
         return 0
     opts = rep.get("options") or {}
-    if "orders" in rep:
+    if "runs" in rep:
         chk.build(["theories/Corr/C12.vo"])
         order0 = fortran_files(files)
-        runs = [R.traced_run(files, o, opts) for o in rep["orders"]]
+        runs = [R.traced_run(files, r["forced"], opts, unsorted=r["unsorted"]) for r in rep["runs"]]
         for r in runs:
-            print("order", r["enum"], "err", r["err"])
+            print("handed over", r["forced"], "sort neutralised" if r["unsorted"] else "real sort",
+                  "-> parsed", r["enum"], "err", r["err"])
         term, problems = build_case(order0, runs)
         print("problems:", problems)
         res = chk.coq_judge(IMPORTS, CASE_T, "judge", [term]) if term else None
-        print("judge code:", res, "(bit0 model!=impl, bit1 runs disagree, >>2 region: 1 = names clash)")
+        print("judge code:", res, "(bit0 model!=impl, bit1 real runs disagree, >>2 region: 1 = an entity of a "
+              "set-ordered phase competes for its name)")
         code = (res or {}).get(0, 0)
         bad = res is None or bool(problems) or bool(code & 1) or (bool(code & 2) and code >> 2 == 0)
         return 1 if bad else 0
@@ -512,7 +571,8 @@ def replay(chk, rep):
     with F.Work() as w:
         pd = R.ProjectDir(w.root, "p", files)
         ref = pd.run(rep.get("reference_options") or opts, seeds[0])
-        oth = pd.run(opts, seeds[1], stale=stale)
+        where = R.ProjectDir(w.root / MOVED, "p", files) if rep.get("run") == "location" else pd
+        oth = where.run(opts, seeds[1], stale=stale)
     cl = R.classify(mask(ref[2], opts), mask(oth[2], opts), set(rep.get("applicable_findings") or []))
     print("return codes:", ref[0], oth[0])
     print("difference:", "none" if cl is None else cl)
@@ -523,15 +583,17 @@ def finish(chk):
     return chk.finish(
         level_note="Coq proof over all file lists, permutations and request sequences of the pipeline model "
                    "(Out/Project.v on top of the NameSelector model Out/Names.v); model tied to FORD by traced "
-                   "in-process runs under forced enumeration orders; the property itself searched on real "
-                   "`python -m ford` runs (hash seeds x parallel x output-directory states) with a classifier "
-                   "that accepts only differences explained by a recorded finding",
+                   "in-process runs (set of files handed over in forced orders; real sort and neutralised sort); "
+                   "the property itself searched on real `python -m ford` runs (hash seeds x parallel x "
+                   "output-directory states x project location) with a classifier that accepts only differences "
+                   "explained by an open recorded finding",
         trusted_base=["Coq 8.16.1 kernel (vm_compute for cases and witnesses)",
                       "harness/props/c12.py, harness/impl/c12run.py (instrumentation, tree comparison, "
                       "classification), harness/gen/c12proj.py",
                       "hand-written models Out/Project.v, Out/Names.v, Base/Order.v",
-                      "per-file request segments are measured on one traced run (identity order) and the model "
-                      "predicts every other order",
+                      "per-file request segments are measured on one traced run and the model predicts every "
+                      "other run; arbitrary enumerations are reached by neutralising the name `sorted` inside "
+                      "ford.fortran_project (its only use there is Project.__init__'s loop)",
                       "process pool, graphviz, Jinja, markdown: covered by the byte comparison only"],
         rule="(a) one case = one generated project traced under several forced enumeration orders (distinct = "
              "distinct project text); (b) one evaluation = one pair (reference run, other run) of real FORD "
